@@ -176,6 +176,7 @@ func (node *harness) run(ctx context.Context, sender tracing.ISenderHandle) {
 		case msg := <-node.mch:
 			switch m := msg.(type) {
 			case nextHarnessActionMessage:
+				verifAt("harness.request")
 				atomic.StoreInt32(&node.active, 1)
 				node.tracer.Send(ActiveBoundaryTrace{Start: true, Node: node.activity.Element()})
 				in := node.activity.NextAction(ctx, m.flow)
@@ -392,6 +393,7 @@ func (t *taskTrace) Do(options ...DoOption) {
 	default:
 	}
 
+	verifAt("tasktrace.do.checked")
 	response := newDoOption(options...)
 	t.forward <- *response
 }
@@ -430,6 +432,7 @@ func (t *taskTrace) process() {
 		t.response <- *rsp
 	case rsp := <-t.forward:
 		t.response <- rsp
+		verifAt("tasktrace.process.responded")
 	}
 
 	select {
